@@ -387,6 +387,64 @@ def l9(led, rid, ctx):
     led.floor(rid, "propagation sites with directly read bounds", n, 20)
 
 
+L15_TABLE = {
+    ("absolute_value.rs", "set_lower_bound", "lower_bound", "signed"):
+        "else-branch of the sign case analysis: `lb(signed) <= 0` only says the first case did not apply; "
+        "|signed| >= -ub(signed) follows from [signed <= ub] alone",
+}
+
+
+def l15(led, rid, ctx):
+    """the reason implies the branch: a test on a bound of another variable under which a bound is
+    propagated is a premise of the inference, so the reason states a fact about that bound"""
+    from ..flow import show, guards_of, rel_fact
+    lib = ctx.lib
+    n = 0
+    for f in lib.fns.values():
+        if "/src/propagators/arithmetic" not in f.file and "/propagators/element" not in f.file:
+            continue
+        if "/tests" in f.file:
+            continue
+        R = resolver(f)
+        for c in f.calls:
+            if c.name not in ("set_lower_bound", "set_upper_bound") or \
+                    "PropagationContextMut" not in (c.self_ty or "") or len(c.args) != 4:
+                continue
+            tgt = show(peel(R.operand(c.args[1]), calls=None))
+            P = {(show(peel(R.operand(p.args[0]), calls=None)), p.name) for p in reason_preds(f, c)}
+            seen = set()
+            for g in guards_of(f, c.bb):
+                rf = rel_fact(g)
+                if not rf:
+                    continue
+                for side in (rf[1], rf[2]):
+                    s_ = peel(side, calls=None, casts=False)
+                    if not (s_.k == "call" and s_.a.name in ("lower_bound", "upper_bound") and len(s_.a.args) >= 2):
+                        continue
+                    v = show(peel(R.operand(s_.a.args[-1]), calls=None))
+                    if v == tgt or (v, s_.a.name) in seen:
+                        continue
+                    seen.add((v, s_.a.name))
+                    n += 1
+                    has = (v, s_.a.name + "_predicate") in P or (v, "equality_predicate") in P
+                    root = (f.parent or f.defn).rsplit("::", 1)[-1]
+                    key = "%s:%s(%s)<-%s(%s)" % (root, c.name, tgt[-14:], s_.a.name, v[-14:])
+                    if has:
+                        led.ok(rid, key, c.span, "the tested bound is stated in the reason")
+                        continue
+                    why = None
+                    for (fl, fn_, kind, var), reason in L15_TABLE.items():
+                        if f.file.endswith(fl) and c.name == fn_ and s_.a.name == kind and v.endswith(var):
+                            why = reason
+                    led.check(why is not None, rid, key, c.span, "table: %s" % why,
+                              "%s propagates a bound of %s on a branch that tests the %s of %s, but its reason "
+                              "states nothing about that bound: in a state where the reason holds and the test "
+                              "fails the propagation is not justified (e.g. both factors negative), so a nogood "
+                              "learned through it cuts off solutions"
+                              % (root, tgt[-30:], s_.a.name.replace("_", " "), v[-30:]))
+    led.floor(rid, "bound tests of other variables guarding a propagation", n, 35)
+
+
 def l12(led, rid, ctx):
     """CACHE-INVALIDATION: the cumulative propagation handler caches the explanation of `the
     current profile`; every way from one use of the cache to the next that passes the point where
@@ -474,3 +532,4 @@ def run(ctx, led):
     run_rule(led, "L12", "CACHE-INVALIDATION: the cached profile explanation is reset whenever the profile operand changes", l12, ctx)
     from . import C07 as _C07
     run_rule(led, "L14", "the nogood a lazy reason refers to is never deleted while it is the reason of a trail entry (shared with C07-J1)", _C07.j1, ctx)
+    run_rule(led, "L15", "the reason implies the branch: every tested bound of another variable that guards a propagation is stated in the reason", l15, ctx)
